@@ -39,7 +39,7 @@ def plan(tier):
 def setup(ctx):
     reg = qlang.Registry()
     st = Store("memory", ctx.tmp)
-    rng = random.Random(f"c17-data-{ctx.seed}-{ctx.widx}")
+    rng = random.Random("c17-data")      # the same data in every worker, so that a replay sees what the run saw
     lo, hi = qlang.populate(st.ds, rng, 1_600_000_000_000_000)
     counter = hooks.ActivationCounter(os.path.join(os.environ["AWVERIF_REPO"], "aw_query"))
     counter.start()
